@@ -1042,8 +1042,8 @@ def plain_keepalive(case):
         return False
     if case.get("cread", "read") == "none":
         return False
-    if rq.get("expect100") and rs.get("read", "read") == "none":
-        return False
+    if rq.get("expect100"):
+        return False          # the final response may outrun the body writer: the client then closes (allowed)
     return True
 
 
@@ -1630,6 +1630,8 @@ def in_resp_subset(case):
     if rs["kind"] != "stream" or rs.get("compression") or case.get("expect") or rq.get("expect100"):
         return False
     if case.get("cread", "read") == "none" or rq.get("chunked") is False:
+        return False
+    if _is_head_stream(case):         # open finding: body bytes follow the HEAD head and disturb the client
         return False
     if rs.get("read", "read") == "none" and (rq.get("body") or {"kind": "none"})["kind"] != "none":
         return False
